@@ -257,6 +257,23 @@ def first_byte_sweep(chk: Check, root: str) -> None:
             r = tls_site.request(data)
             answers[b] = r
         real = tls_site.request(b"/probe-real\r\n", tls="real")
+        # a client that stays silent for longer than the configured receive timeout (the accepted socket carries
+        # SO_RCVTIMEO, as one accepted from the daemon's listening socket does) and only then sends 0x16: late is not plaintext
+        import socket as _socket
+        import struct as _struct
+
+        def with_rcvtimeo(sock):
+            sock.setsockopt(_socket.SOL_SOCKET, _socket.SO_RCVTIMEO, _struct.pack("ll", 1, 0))
+            sock.setsockopt(_socket.SOL_SOCKET, _socket.SO_SNDTIMEO, _struct.pack("ll", 1, 0))
+            return sock
+        for delay in (1.4, 0.4):
+            late = tls_site.request(b"\x16probe-late\r\n", server_sock_wrapper=with_rcvtimeo, initial_delay=delay)
+            chk.count("late_first_byte_connections")
+            if b"probe-late" in late.data or late.protocol not in (None, "<raised>"):
+                chk.witness("C02/late-0x16-answered-in-plaintext", {"silent_for": delay, "receive_timeout": 1, "reply": late.data[:120],
+                                                                    "protocol": late.protocol, "log": late.log[:2]})
+            else:
+                chk.case(("late-firstbyte", delay), {"silent_for": delay, "reply": late.data[:60], "protocol": late.protocol})
     finally:
         tls_site.close()
     plain_site = driver.Site(root, tls_context=False)
